@@ -265,11 +265,9 @@ theorem outReset_quiet {t : Topo} {s s' : State} {n : Nat} (h : outReset t s n =
   · split at h
     · cases h
     cases h
-    split
-    · exact (quiet_baseShutdown t hp).trans (WLe.of_eq rfl rfl rfl)
-    · rename_i e _ _ _ _ _
-      have h0 : Quiet s { s with downOpen := upd s.downOpen e false } := WLe.of_eq rfl rfl rfl
-      exact (h0.trans (quiet_baseShutdown t (by simpa [State.gone] using hp))).trans (WLe.of_eq rfl rfl rfl)
+    rename_i e _ _ _ _
+    have h0 : Quiet s { s with downOpen := upd s.downOpen e false } := WLe.of_eq rfl rfl rfl
+    exact (h0.trans (quiet_baseShutdown t (by simpa [State.gone] using hp))).trans (WLe.of_eq rfl rfl rfl)
   · cases h
 
 theorem wsend_wle {t : Topo} {s s' : State} {w : Nat} {m : Msg} (h : wsend t s w m = some s') :
